@@ -252,6 +252,7 @@ class CQuoter:
         self._skip()
         self._hex_decode()
         self._utf8_bytes()
+        self._utf8_surrogates()
         self._advance()
         from .unquoters import read_bounds
         for q in (f"{MOD}._Quoter._do_quote", f"{MOD}._Quoter._do_quote_or_skip"):
@@ -343,6 +344,18 @@ class CQuoter:
                    "an escape is re-emitted upper-case but the `changed` flag does not depend on the case of BOTH of its hex "
                    "digits: an escape whose untested digit is lower-case leaves the flag clear and the input is returned unchanged",
                    where(fi, e.node), sample="changed = lower(d1) or lower(d2)")
+        # ... and the case test itself answers yes for every lower-case hex digit
+        ql = f"{MOD}._is_lower_hex"
+        if any(callee_name(k) == "_is_lower_hex" for site in self.sites if site["cls"] == "REEMIT" and len(site["event"].args) > 2
+               for k in walk(site["event"].args[2])) and self.model.has_func(ql):
+            fl = self.model.func(ql)
+            got = self.fold_function(ql, fl.params[0], [ord(c) for c in "abcdef"])
+            missed = [c for c, v in zip("abcdef", got) if not v]
+            ctx.instance(rule2)
+            ctx.ob(rule2, ql, "lower-case test over a-f", not missed,
+                   f"the lower-case test that sets the `changed` flag answers no for {missed}: an escape like '%{missed[0] if missed else 'a'}a' "
+                   "is re-emitted upper-case without the flag and the input is returned unchanged", where(fl, fl.node),
+                   sample="true for each of a-f")
         # result: ASCII-decoded buffer, or the input when nothing changed
         rule3 = "EM-CQ-RETURN"
         ctx.rule(rule3, floor=2)
@@ -533,8 +546,16 @@ class CQuoter:
                     ctx.ob(rule, q, f"return {show(v)} [infeasible for a Py_UCS4]", True,
                            sample="path condition is empty over the Py_UCS4 range 0..0x10FFFF", nontrivial=False)
                     continue
+                def flags_change(t):
+                    # writer.changed = <true constant>, or `|=` with one (a store of False / 0 flags nothing)
+                    if not (t[0] == "store" and t[1][0] == "attr" and t[1][2] == "changed"):
+                        return False
+                    val = t[2]
+                    if val[0] == "binop" and val[1] == "BitOr":
+                        return any(x[0] == "const" and bool(x[1]) for x in (val[2], val[3]))
+                    return val[0] == "const" and bool(val[1])
                 wrote = callee_name(v) in WRITERS or any(
-                    (t[0] == "call" and callee_name(t) in WRITERS) or (t[0] == "store" and t[1][2] == "changed") for t in s.trace)
+                    (t[0] == "call" and callee_name(t) in WRITERS) or flags_change(t) for t in s.trace)
                 ctx.ob(rule, q, f"success return without a write for {rng}" if not wrote else f"return {show(v)} for {rng}", wrote,
                        "the helper reports success for an input unit without writing anything or flagging a change: "
                        "the unit is dropped and the quoter may return its input unchanged", where(fi, node),
@@ -577,6 +598,45 @@ class CQuoter:
                     problems.append(f"U+{c:04X}: writes {[hex(b) for b in got]}, UTF-8 is {[hex(b) for b in want]}")
             ctx.ob(rule, q, f"code points U+{lo:04X}..U+{hi:04X}", not problems, "; ".join(problems), where(fi, node),
                    sample=f"{len(writes)} byte(s), codec agrees at both ends and the middle")
+
+    def _utf8_surrogates(self):
+        """The branch of _write_utf8 that writes nothing is taken exactly for the surrogate code points (the Python quoter
+        drops exactly those: `encode("utf8", errors="ignore")`): path conditions folded at both edges of the surrogate block."""
+        ctx = self.ctx
+        rule = "EM-UTF8-SURR"
+        ctx.rule(rule, floor=1, what="nothing is written exactly for the surrogate code points (as the pure-Python quoter does)")
+        q = f"{MOD}._write_utf8"
+        fi = self.model.func(q)
+        # every path kept apart: which branch a code point takes is a conjunction of range tests
+        tr = lambda kind, t: (kind == "call" and callee_name(t) in WRITERS) or (kind == "store_attr" and t[2] == "changed")
+        r = analyze(self.model, fi, trace=tr, trace_key="writers-unmerged", merge=False)
+        sym = ("param", fi.params[1])
+        problems = []
+        first = None
+        for c in (0x7FF, 0x800, 0xD7FF, 0xD800, 0xD801, 0xDBFF, 0xDC00, 0xDFFE, 0xDFFF, 0xE000, 0xFFFF, 0x10000, 0x10FFFF):
+            f = Folder(self.model, {sym: c})
+            taken = []
+            for s, v, node in r.returns:
+                if v == ("const", -1):
+                    continue
+                try:
+                    if all(bool(f.fold(k)) == fv for k, fv in s.facts.items() if not any(callee_name(t) in WRITERS for t in walk(k))):
+                        taken.append((s, node))
+                except CannotFold as e:
+                    raise AnalysisError(f"{q}: path condition cannot be folded for U+{c:04X}: {e}")
+            if not taken:
+                raise AnalysisError(f"{q}: no success path for U+{c:04X}")
+            writes = {sum(1 for t in s.trace if t[0] == "call" and callee_name(t) == "_write_pct") for s, _n in taken}
+            surrogate = 0xD800 <= c <= 0xDFFF
+            if surrogate and writes != {0}:
+                problems.append(f"U+{c:04X} is a surrogate but is written ({sorted(writes)} bytes): the Python quoter drops it")
+                first = first or taken[0][1]
+            if not surrogate and 0 in writes:
+                problems.append(f"U+{c:04X} is not a surrogate but nothing is written for it")
+                first = first or taken[0][1]
+        ctx.instance(rule)
+        ctx.ob(rule, q, "surrogate block U+D800..U+DFFF", not problems, "; ".join(problems), where(fi, first or fi.node),
+               sample="dropped exactly for U+D800..U+DFFF")
 
     def _advance(self):
         """Scanner position accounting of the compiled quoter: +1 per unit, +3 when a valid escape was consumed."""
@@ -629,6 +689,9 @@ class CQuoter:
                 unflagged = [b for b in back if b.env.get(fl[2]) == fl]
                 ok = ok_src and safe_back and bool(unflagged)
                 why = f"flag sources {[show(x) for x in srcs]}, {len(unflagged)} unflagged iteration state(s) all under `< 128 and bit_at(safe)`"
+                if ok:
+                    ok, how = self._scan_covers(r, lid, unflagged)
+                    why = how if not ok else why + "; " + how
             if not ok:
                 # for-else / while-else idiom: the return sits in the `else` of a loop over range(length) that is left by `break` as soon
                 # as a unit is not literal-safe, so it is reached only when every iteration ran to its end
@@ -637,6 +700,53 @@ class CQuoter:
                     ok, why = ok2, why2
             ctx.ob(rule, q, "return val (skip)", ok, "the unscanned input is returned without every unit being tested against "
                    "`< 128` and the safe table: " + why, where(fi, node), sample=why)
+
+    def _scan_covers(self, r, lid, back):
+        """Does the scanning loop `lid` test every unit of the input? (a) the unit tested on each completed iteration is
+        `PyUnicode_READ(kind, data, <i>)` where <i> is the loop index as it stands at the end of that iteration, and (b) the
+        index visits every position: `for <i> in range(length)`, or a counter that starts at the length, goes down by exactly
+        one per iteration and stops at 0 (`while <i>:`). Returns (True/False, reason) or raises on an unknown loop shape."""
+        import ast as _ast
+        from .unquoters import _is_length, lin
+        loop = r.loops.get(lid)
+        if loop is None:
+            raise AnalysisError("CH1-SKIP: scanning loop not found")
+        if isinstance(loop, _ast.For):
+            rng = loop.iter
+            if not (isinstance(rng, _ast.Call) and isinstance(rng.func, _ast.Name) and rng.func.id == "range" and
+                    isinstance(loop.target, _ast.Name)):
+                raise AnalysisError("CH1-SKIP: the scanning for-loop is not over range(...) (unknown idiom)")
+            if len(rng.args) != 1:
+                return False, "the scan does not run over range(length): some positions are never tested"
+            var = loop.target.id
+            how = "for over range(length)"
+        elif isinstance(loop, _ast.While) and isinstance(loop.test, _ast.Name):
+            var = loop.test.id
+            phi = ("phi", lid, var)
+            srcs = r.phis.get((lid, var), set())
+            if not srcs:
+                raise AnalysisError("CH1-SKIP: the scan index of the while loop has no recorded sources (unknown idiom)")
+            steps = [x for x in srcs if not _is_length(x) and x != phi]
+            if not all(lin(x)[0] == phi for x in steps):
+                raise AnalysisError("CH1-SKIP: the scan index is not a counter (unknown idiom)")
+            if not any(_is_length(x) for x in srcs):
+                return False, "the scan index does not start at the length of the input"
+            if any(lin(x)[1] != -1 for x in steps):
+                return False, f"the scan index moves by {sorted({lin(x)[1] for x in steps})} per iteration: positions are skipped"
+            how = "while counting the index down from the length by one"
+        else:
+            raise AnalysisError("CH1-SKIP: scanning loop of an unknown shape")
+        for b in back:
+            tested = [k[2][1] for k, fv in b.facts.items() if callee_name(k) == "bit_at" and fv and len(k[2]) == 2]
+            cur = b.env.get(var)
+            if isinstance(loop, _ast.For):
+                cur = cur if cur is not None else ("phi", lid, var)
+            ok = bool(tested) and all(callee_name(x) == "PyUnicode_READ" and len(x[2]) == 3 and
+                                      (x[2][2] == cur or (isinstance(loop, _ast.For) and x[2][2][0] in ("phi", "elem", "iter") )) for x in tested)
+            if not ok:
+                return False, (f"the unit tested against the safe table is {[show(x)[:50] for x in tested]}, not the unit read at the "
+                               f"current scan index {show(cur) if cur else var}")
+        return True, how
 
     def _skip_for_else(self, r, node):
         import ast as _ast
@@ -675,6 +785,10 @@ class CQuoter:
                 srcs = r.phis.get((lids[0], loop.test.id), set())
                 full = bool(srcs) and all(_is_length(x) or lin(x) == (phi, -1) or x == phi for x in srcs)
             how = "while-else counting the index down from the length"
+        if ok and full:
+            ok, how2 = self._scan_covers(r, lids[0], back)
+            if not ok:
+                return False, how2
         return ok and full, f"{how}: {len(back)} completed-iteration state(s) all under `< 128 and bit_at(safe)`"
 
     # ------------------------------------------------------------------
